@@ -13,17 +13,20 @@ Definition dh (hs : list hold) (ws : list twaiter) (c : comp) : list hold :=
   match findw (c_wid c) ws with [] => hs | w :: _ => ef (c_at c) hs ++ new_hold w (c_at c) (c_resp c) end.
 Definition dw (ws : list twaiter) (c : comp) : list twaiter :=
   match findw (c_wid c) ws with [] => ws | _ :: _ => rmw (c_wid c) ws end.
-Definition df (cause : option err) (hs : list hold) (ws : list twaiter) (pend : list str) (c : comp) : list string :=
+Definition dk (ks : list str) (ws : list twaiter) (c : comp) : list str :=
+  match findw (c_wid c) ws with [] => ks | _ :: _ => new_key (c_resp c) ++ ks end.
+Definition df (cause : option err) (hs : list hold) (ws : list twaiter) (pend ks : list str) (c : comp) : list string :=
   match findw (c_wid c) ws with
   | [] => ["C03:completion-of-unknown-call"%string]
-  | w :: _ => (if is_grant (c_resp c) then grant_flags w (c_at c) hs ws pend else []) ++ own_flags w (c_at c) (c_resp c) cause
+  | w :: _ => key_flags (c_resp c) ks ++ (if is_grant (c_resp c) then grant_flags w (c_at c) hs ws pend else []) ++ own_flags w (c_at c) (c_resp c) cause
   end.
 
 Lemma done1_eq cfg i cause t c :
-  done1 cfg i cause t c = TState (dh (t_holds t) (t_waiters t) c) (dw (t_waiters t) c) (t_now t) (t_pending t) (t_mem t)
-                                 (map (pair i) (df cause (t_holds t) (t_waiters t) (t_pending t) c) ++ t_fail t).
+  done1 cfg i cause t c = TState (dh (t_holds t) (t_waiters t) c) (dw (t_waiters t) c) (t_now t) (t_pending t) (t_mem t) (t_sids t)
+                                 (dk (t_keys t) (t_waiters t) c)
+                                 (map (pair i) (df cause (t_holds t) (t_waiters t) (t_pending t) (t_keys t) c) ++ t_fail t).
 Proof.
-  unfold done1, dh, dw, df. destruct (findw (c_wid c) (t_waiters t)) as [|w rest] eqn:E.
+  unfold done1, dh, dw, dk, df. destruct (findw (c_wid c) (t_waiters t)) as [|w rest] eqn:E.
   - rewrite wd_unknown by done. by destruct t.
   - by erewrite wd_known.
 Qed.
@@ -61,21 +64,22 @@ Section order.
   Context (cfg : config) (i : nat) (cause : option err).
 
   Definition tle (t t' : tstate) : Prop :=
-    t_now t' = t_now t ∧ t_pending t' = t_pending t ∧ t_mem t' = t_mem t ∧ t_waiters t' = t_waiters t ∧ t_holds t ≡ₚ t_holds t' ∧
+    t_now t' = t_now t ∧ t_pending t' = t_pending t ∧ t_mem t' = t_mem t ∧ t_sids t' = t_sids t ∧ t_keys t' = t_keys t ∧
+    t_waiters t' = t_waiters t ∧ t_holds t ≡ₚ t_holds t' ∧
     ∀ x, x ∈ t_fail t' → x ∈ t_fail t.
 
   Lemma tle_refl t : tle t t.
   Proof. split_and!; try done. Qed.
   Lemma tle_trans t1 t2 t3 : tle t1 t2 → tle t2 t3 → tle t1 t3.
   Proof.
-    intros (? & ? & ? & ? & Hp1 & F1) (? & ? & ? & ? & Hp2 & F2). split_and!; try congruence.
+    intros (? & ? & ? & ? & ? & ? & Hp1 & F1) (? & ? & ? & ? & ? & ? & Hp2 & F2). split_and!; try congruence.
     - by rewrite Hp1.
     - auto.
   Qed.
 
-  Lemma df_perm hs hs' ws pend c : hs ≡ₚ hs' → df cause hs ws pend c = df cause hs' ws pend c.
+  Lemma df_perm hs hs' ws pend ks c : hs ≡ₚ hs' → df cause hs ws pend ks c = df cause hs' ws pend ks c.
   Proof.
-    intros H. unfold df. destruct (findw _ _); [done|]. destruct (is_grant _); [|done].
+    intros H. unfold df. destruct (findw _ _); [done|]. f_equal. destruct (is_grant _); [|done].
     unfold grant_flags. by rewrite (cap_ok_perm _ _ _ _ _ H).
   Qed.
   Lemma dh_perm hs hs' ws c : hs ≡ₚ hs' → dh hs ws c ≡ₚ dh hs' ws c.
@@ -83,9 +87,9 @@ Section order.
 
   Lemma done1_mono t t' c : tle t t' → tle (done1 cfg i cause t c) (done1 cfg i cause t' c).
   Proof.
-    intros (En & Ep & Em & Ew & Hh & Hf). rewrite !done1_eq. rewrite Ew, Ep. split_and!; simpl; try done.
+    intros (En & Ep & Em & Es & Ek & Ew & Hh & Hf). rewrite !done1_eq. rewrite Ew, Ep, Ek. split_and!; simpl; try done.
     - by apply dh_perm.
-    - intros x. rewrite !elem_of_app, <- (df_perm _ _ _ _ _ Hh). intros [?|Hx]; auto.
+    - intros x. rewrite !elem_of_app, <- (df_perm _ _ _ _ _ _ Hh). intros [?|Hx]; auto.
   Qed.
 
   Lemma done_list_mono l : ∀ t t', tle t t' → tle (done_list cfg i cause l t) (done_list cfg i cause l t').
@@ -107,24 +111,28 @@ Section order.
     tle (done1 cfg i cause (done1 cfg i cause t c1) c2) (done1 cfg i cause (done1 cfg i cause t c2) c1).
   Proof.
     intros (Hat & Hne & G1 & G2). rewrite !done1_eq. simpl.
-    set (hs := t_holds t). set (ws := t_waiters t). set (pd := t_pending t).
+    set (hs := t_holds t). set (ws := t_waiters t). set (pd := t_pending t). set (ks := t_keys t).
     pose proof (findw_dw_ne (c_wid c1) c2 ws Hne) as F1.
     pose proof (findw_dw_ne (c_wid c2) c1 ws (not_eq_sym Hne)) as F2.
+    assert (new_key (c_resp c2) = []) as Enk by (destruct (c_resp c2) as [[] ? ?| |]; done).
+    assert (key_flags (c_resp c2) = λ _, []) as Ekf by (destruct (c_resp c2) as [[] ? ?| |]; done).
     split_and!; simpl; try done.
+    - unfold dk. rewrite F1, F2. rewrite Enk. by destruct (findw (c_wid c1) ws), (findw (c_wid c2) ws).
     - unfold dw in *. rewrite F1, F2.
       destruct (findw (c_wid c1) ws), (findw (c_wid c2) ws); try done. unfold rmw. apply lfilter_comm.
     - unfold dh. rewrite F1, F2.
       destruct (findw (c_wid c1) ws) as [|w1 r1], (findw (c_wid c2) ws) as [|w2 r2]; try done.
       rewrite !ef_app, Hat, !ef_new_hold, !ef_ef by lia. rewrite <- !app_assoc. apply Permutation_app_head, Permutation_app_comm.
     - intros x. rewrite !elem_of_app, !elem_of_list_In, !in_map_iff. setoid_rewrite <- elem_of_list_In.
-      unfold df. rewrite F1, F2. unfold dh, dw.
+      unfold df. rewrite F1, F2. unfold dh, dw, dk. rewrite Enk, Ekf.
       destruct (findw (c_wid c1) ws) as [|w1 r1] eqn:E1; destruct (findw (c_wid c2) ws) as [|w2 r2] eqn:E2; try tauto.
       destruct (findw_id _ _ _ _ E1) as [Hid1 Hw1], (findw_id _ _ _ _ E2) as [Hid2 Hw2]. rewrite G1, G2, Hat. simpl.
       assert (new_hold w2 (c_at c2) (c_resp c2) = []) as Enh by (destruct (c_resp c2) as [[] ? ?| |]; done).
       rewrite Enh, app_nil_r.
       intros [(tg & <- & Hx)|[(tg & <- & Hx)|?]]; [| |tauto].
-      + apply elem_of_app in Hx as [Hx|Hx]; [|right; left; exists tg; split; [done|]; apply elem_of_app; by right].
-        right. left. exists tg. split; [done|]. apply elem_of_app. left.
+      + apply elem_of_app in Hx as [Hx|Hx]; [right; left; exists tg; split; [done|]; apply elem_of_app; by left|].
+        apply elem_of_app in Hx as [Hx|Hx]; [|right; left; exists tg; split; [done|]; apply elem_of_app; right; apply elem_of_app; by right].
+        right. left. exists tg. split; [done|]. apply elem_of_app. right. apply elem_of_app. left.
         unfold grant_flags in *. apply elem_of_app in Hx as [Hx|Hx]; apply elem_of_app; [left|right].
         * by rewrite cap_ok_ef in Hx.
         * destruct (fifo_ok w1 ws) eqn:F'.
